@@ -403,6 +403,11 @@ class Kernel:
                 j = self.expr(sl.elts[1], env)
                 if i.kind == 'int' and j.kind == 'int':
                     return V('num', app('get2Z', base.coq, i.coq, j.coq))
+            # records[-1, :] / records[k, :] on a per-ray input: the row is part of the input's meaning (C13)
+            if base.kind == 'num' and len(sl.elts) == 2 and isinstance(sl.elts[1], ast.Slice) \
+                    and sl.elts[1].lower is None and sl.elts[1].upper is None and sl.elts[1].step is None \
+                    and self.spec.get('row_inputs') and self.dotted_of(node.value) in self.spec['row_inputs']:
+                return base
             # a[:, None] style broadcasting -> identity
             if all(isinstance(e, ast.Slice) or (isinstance(e, ast.Constant) and e.value is None) for e in sl.elts):
                 return base
